@@ -260,6 +260,9 @@ func runC08(rc *RunCtx) {
 		rc.Probe("ctor_refused")
 		return
 	}
+	if sc.Fault == FCancelBefore || sc.Fault == FCancelAfterWrite || sc.Fault == FCancelAt || sc.Fault == FCtxDeadline {
+		sc.CtxWithCause = !rc.Scen.Has("prefix") && rc.Scen.Choose(3) == 0
+	}
 	if !rc.Scen.Has("prefix") && rc.Scen.Chance(1, 12) {
 		// user code that the client calls may fail: a logging hook panics once (a formatter indexing past what it was given),
 		// the application recovers the panic around its polling step and goes on - the client must still answer
